@@ -60,6 +60,8 @@ Definition ctl_ok (k : kind) (p : cpc) (h : phase) : bool :=
   (match p with CLenR => is_run h | _ => true end) &&
   (match dk_chain p with Some (DRead _) | Some DFinish => is_run h | _ => true end) &&
   (match h with PDrain | PFin => quiet_pc k p | _ => true end) &&
+  (match p, h with CRecv KDrain b, PRun => negb b | _, _ => true end) &&
+  (match gk_of p, h with Some KFinish, PRun => false | _, _ => true end) &&
   kind_ok k p.
 
 Section P.
@@ -183,7 +185,7 @@ Proof.
     unfold ret_eff, src_eff, finish_eff, flush_eff, with_out, goto, creturn, freturn, dk_is_finish,
            blocking_of in *;
     rewrite ?Fc, ?Fw, ?Fe, ?Ff in *;
-    unfold ctl_ok, quiet_pc, kind_ok, dk_chain, is_run, is_perr, is_reader in *; cbn [e_pc e_ph e_out e_res e_fin e_last andb] in *;
+    unfold ctl_ok, quiet_pc, kind_ok, dk_chain, gk_of, is_run, is_perr, is_reader in *; cbn [e_pc e_ph e_out e_res e_fin e_last andb] in *;
     repeat (progress (brute; cbn [e_pc e_ph e_out e_res e_fin e_last andb] in * ));
     try reflexivity; try discriminate; try congruence.
 Qed.
@@ -213,6 +215,14 @@ Lemma ctl_quiet k p h : ctl_ok k p h = true -> h = PDrain \/ h = PFin -> quiet_p
 Proof.
   unfold ctl_ok. intros H. repeat (apply andb_true_iff in H; destruct H as [H ?]).
   intros [->| ->]; assumption.
+Qed.
+
+Lemma ctl_drain_nb k b : ctl_ok k (CRecv KDrain b) PRun = true -> b = false.
+Proof. unfold ctl_ok. destruct b; cbn; intros H; auto; repeat (apply andb_true_iff in H; destruct H as [H ?]); discriminate. Qed.
+
+Lemma ctl_finish_norun k p : gk_of p = Some KFinish -> ctl_ok k p PRun = true -> False.
+Proof.
+  unfold ctl_ok. intros E H. rewrite E in H. repeat (apply andb_true_iff in H; destruct H as [H ?]); discriminate.
 Qed.
 
 Lemma ctl_kind k p h : ctl_ok k p h = true -> kind_ok k p = true.
